@@ -186,6 +186,9 @@ def run(ctx):
                 ctx.spec(lf, '1 / np.sinc(np.min([np.modf((f_start - raw_voltage_backend.fch1) / (raw_voltage_backend.chan_bw / fftlength))[0], '
                              '1 - np.modf((f_start - raw_voltage_backend.fch1) / (raw_voltage_backend.chan_bw / fftlength))[0]]))',
                          typed_params={'raw_voltage_backend': B}), node=lf.node, construct='return get_leakage_factor')
+    # registration "from the file's own header": the header is the one on disk at the time of the call
+    from .common import memo_obligation
+    memo_obligation(ctx, ctx.func('voltage.raw_utils.read_header'), "the reducer registers frequencies from the file's own header, re-read on every call")
 
 
 META = {
